@@ -17,7 +17,16 @@ for d in sorted(os.listdir(os.path.join(V, 'seeded'))):
     rc = rc[-1].split()[1] if rc else '?'
     rows.append((d, check, rc, round(time.time() - t0), (meta.get('summary') or '')[:110]))
     print(rows[-1], flush=True)
-with open(os.path.join(V, 'seeded', 'RESULTS.md'), 'w') as f:
+# a partial run (names given) keeps the rows of the seeds it did not touch
+path = os.path.join(V, 'seeded', 'RESULTS.md')
+if only and os.path.exists(path):
+    done = {r[0] for r in rows}
+    for line in open(path):
+        c = [x.strip() for x in line.strip().strip('|').split(' | ')]
+        if len(c) >= 5 and c[0] not in ('seed', '---') and c[0] not in done and os.path.isdir(os.path.join(V, 'seeded', c[0])):
+            rows.append(tuple(c[:5]))
+    rows.sort(key=lambda r: r[0])
+with open(path, 'w') as f:
     f.write('# Seeded changes vs checks (quick tier)\n\nexit 1 = the check reports a VIOLATION with the change applied (wanted); 0 = missed; 2 = inconclusive\n\n| seed | check | exit | seconds | change |\n|---|---|---|---|---|\n')
     for r in rows:
         f.write('| ' + ' | '.join(str(x) for x in r) + ' |\n')
